@@ -268,10 +268,12 @@ func opScenario(r *Run, mode string) {
 	running := NewMS()
 	var lastWM time.Time
 	var outKeys []int64
+	var firstRun []string
 	nOut := 0
 	produce := func(ctx execution.ProduceContext, rec execution.Record) error {
 		r.SinkLog("  out %s", Msg{Kind: MsgRec, Values: rec.Values, Retr: rec.Retraction, ET: rec.EventTime})
 		nOut++
+		firstRun = append(firstRun, Msg{Kind: MsgRec, Values: rec.Values, Retr: rec.Retraction, ET: rec.EventTime}.String())
 		d := 1
 		if rec.Retraction {
 			d = -1
@@ -296,6 +298,7 @@ func opScenario(r *Run, mode string) {
 	metaSend := func(ctx execution.ProduceContext, msg execution.MetadataMessage) error {
 		r.SinkLog("  out wm(%s)", Sec(msg.Watermark))
 		nOut++
+		firstRun = append(firstRun, "wm("+Sec(msg.Watermark)+")")
 		if mode == "C18" && msg.Watermark.Before(lastWM) {
 			r.Violate("C18", "watermark_regressed", attrs, "watermark %s emitted after %s", Sec(msg.Watermark), Sec(lastWM))
 		}
@@ -317,6 +320,32 @@ func opScenario(r *Run, mode string) {
 	r.Log("run returned err=%v", err)
 	if mode != "C15" {
 		return
+	}
+	// A materialised node may be run again (LOOKUP JOIN re-runs its joined side per outer record):
+	// a second run over the same input must emit exactly what the first did.
+	if err == nil && !r.Failed() {
+		var secondRun []string
+		var err2 error
+		func() {
+			defer func() {
+				if p := recover(); p != nil {
+					err2 = fmt.Errorf("panic: %v", p)
+				}
+			}()
+			err2 = node.Run(execution.ExecutionContext{Context: bubbleCtx()},
+				func(ctx execution.ProduceContext, rec execution.Record) error {
+					secondRun = append(secondRun, Msg{Kind: MsgRec, Values: rec.Values, Retr: rec.Retraction, ET: rec.EventTime}.String())
+					return nil
+				},
+				func(ctx execution.ProduceContext, msg execution.MetadataMessage) error {
+					secondRun = append(secondRun, "wm("+Sec(msg.Watermark)+")")
+					return nil
+				})
+		}()
+		if err2 != nil || strings.Join(firstRun, " ") != strings.Join(secondRun, " ") {
+			r.Violate("C15", "rerun_differs", attrs, "running the same node a second time over the same input emits a different sequence (err=%v): first %v, second %v",
+				err2, truncateList(firstRun, 12), truncateList(secondRun, 12))
+		}
 	}
 	if err != nil {
 		r.Violate("C15", "run_error", attrs, "operator failed on a valid changelog: %v", err)
